@@ -2,6 +2,8 @@ package sim
 
 import (
 	"fmt"
+	"os"
+	"sort"
 
 	"github.com/tendermint/tendermint/consensus"
 	cstypes "github.com/tendermint/tendermint/consensus/types"
@@ -30,7 +32,13 @@ import (
 
 func hrs(n *Node) string {
 	rs := n.RS()
-	return fmt.Sprintf("%d/%d/%d", rs.Height, rs.Round, rs.Step)
+	parts := -1
+	if rs.ProposalBlockParts != nil {
+		parts = int(rs.ProposalBlockParts.Count())
+	}
+	// proposal and parts held are part of the state a gossip pass can change (a part that arrives before its
+	// proposal is dropped and has to come again in the next pass)
+	return fmt.Sprintf("%d/%d/%d/p%v/%d/b%v", rs.Height, rs.Round, rs.Step, rs.Proposal != nil, parts, rs.ProposalBlock != nil)
 }
 
 // held: packet is known to at least one correct node.
@@ -66,9 +74,51 @@ func (net *Net) redeliver(p *Packet, to int) {
 	net.settle(n)
 }
 
+// gossipOrder: the order in which one gossip pass hands the union log to a node. "All messages are delivered before
+// the timeouts fire" says nothing about their order, so it is a drawn dimension (net.GossipMode): chronological,
+// newest first, precommits before prevotes before proposals, later rounds first, or alternating per pass.
+func (net *Net) gossipOrder(pass int) []*Packet {
+	out := append([]*Packet(nil), net.Pool...)
+	mode := net.GossipMode
+	if mode == "alternate" {
+		mode = []string{"chrono", "reverse", "precommits-first", "high-rounds-first"}[pass%4]
+	}
+	// (a proposal always precedes its parts: the reactor sends parts only to a peer that has the part-set header)
+	rank := map[string]int{"precommit": 0, "prevote": 1, "proposal": 2, "part": 3}
+	switch mode {
+	case "reverse":
+		for i, j := 0, len(out)-1; i < j; i, j = i+1, j-1 {
+			out[i], out[j] = out[j], out[i]
+		}
+	case "precommits-first":
+		sort.SliceStable(out, func(i, j int) bool { return rank[out[i].Kind] < rank[out[j].Kind] })
+	case "high-rounds-first":
+		sort.SliceStable(out, func(i, j int) bool {
+			if out[i].R != out[j].R {
+				return out[i].R > out[j].R
+			}
+			return rank[out[i].Kind] < rank[out[j].Kind]
+		})
+	}
+	return out
+}
+
 // Quiesce runs idealised gossip to a fixpoint. Returns false if it did not converge within the pass budget.
 func (net *Net) Quiesce() bool {
 	for pass := 0; pass < 200; pass++ {
+		if net.StopHeight > 0 {
+			// the suffix only asks for the decision of StopHeight; with skip-timeout-commit and no silent validator
+			// the chain would go on deciding heights inside the gossip loop for ever
+			done := true
+			for _, k := range net.Order {
+				if n := net.Nodes[k]; n.Crashed == "" && n.BlockStore.Height() < net.StopHeight {
+					done = false
+				}
+			}
+			if done {
+				return true
+			}
+		}
 		before := ""
 		for _, k := range net.Order {
 			before += hrs(net.Nodes[k]) + ";"
@@ -80,8 +130,7 @@ func (net *Net) Quiesce() bool {
 			if n.Crashed != "" {
 				continue
 			}
-			for i := 0; i < len(net.Pool); i++ {
-				p := net.Pool[i]
+			for _, p := range net.gossipOrder(pass) {
 				if p.H != n.RS().Height || !net.held(p) {
 					continue
 				}
@@ -191,7 +240,10 @@ func RunTermination(t *rapid.T, test string) {
 	w := &world{victim: -1, decider: -1, opt: Options{Test: test, Prop: "C03"}, t: t, s: s, net: net, blocks: map[int64][]blockInfo{}}
 
 	// ---------------- adversarial prefix
-	prefix := rapid.SampledFrom([]string{"structured", "structured", "free", "both", "calm-then-structured", "gadget-locks", "gadget-locks", "gadget-commit-noblock"}).Draw(t, "prefix")
+	prefix := rapid.SampledFrom([]string{"structured", "structured", "free", "both", "calm-then-structured", "gadget-locks", "gadget-locks", "gadget-commit-noblock", "gadget-laggard"}).Draw(t, "prefix")
+	if f := os.Getenv("VERIF_PREFIX"); f != "" {
+		prefix = f // debugging aid: force one prefix kind
+	}
 	h := int64(1)
 	if prefix == "calm-then-structured" {
 		// decide height 1 peacefully, then attack height 2
@@ -233,6 +285,29 @@ func RunTermination(t *rapid.T, test string) {
 			w.forced[fmt.Sprintf("r%d.fpc.strat", r0)] = "follow"
 			w.playHeight(shadow, h, int32(r0+1))
 		}
+	case "gadget-laggard":
+		// one correct node is cut off for k rounds that all fail (no polka; the faulty validators precommit a block
+		// nobody else precommits, so the others see +2/3-any precommits without a majority); at the switch it is k
+		// rounds behind and receives the later rounds' votes in the order the gossip happens to use
+		w.victim = rapid.SampledFrom(net.Order).Draw(t, "laggard")
+		var rest []int
+		for _, k := range s.keys {
+			if k != w.victim {
+				rest = append(rest, k)
+			}
+		}
+		net.Partition([]int{w.victim}, rest)
+		k := rapid.IntRange(1, 4).Draw(t, "laggardRounds")
+		w.forced = map[string]string{"bprop.strat": "new"}
+		for r := 0; r < k; r++ {
+			w.forced[fmt.Sprintf("r%d.prop", r)] = "all"
+			w.forced[fmt.Sprintf("r%d.prevote", r)] = "partial-all"
+			w.forced[fmt.Sprintf("r%d.fpv.strat", r)] = "nil-all"
+			w.forced[fmt.Sprintf("r%d.precommit", r)] = "all"
+			w.forced[fmt.Sprintf("r%d.fpc.strat", r)] = rapid.SampledFrom([]string{"x-all", "x-all", "nil-all", "silent"}).Draw(t, "laggardFpc")
+		}
+		w.playHeight(shadow, h, int32(k))
+		w.forced = nil
 	case "free":
 	default:
 		w.playHeight(shadow, h, rapid.Int32Range(1, 5).Draw(t, "prefixRounds"))
@@ -283,9 +358,32 @@ func RunTermination(t *rapid.T, test string) {
 	}
 	W := (total+minP-1)/minP + int64(len(s.keys))
 	R := int32(3*W + 3)
+	minR := rMax
+	for _, k := range net.Order {
+		if rs := net.Nodes[k].RS(); rs.Height == hStar && rs.Round < minR {
+			minR = rs.Round
+		}
+	}
+	lib.Class(test, fmt.Sprintf("round-spread-at-switch:%d", minI32(rMax-minR, 4)))
 	net.Logf("=== SYNCHRONY from here: H*=%d rMax=%d bound R=%d (W=%d) locked-values=%d commit-wait-without-block=%d", hStar, rMax, R, W, len(locked), commitWaitNoBlock)
 
 	// ---------------- synchronous suffix
+	net.StopHeight = hStar
+	net.GossipMode = rapid.SampledFrom([]string{"chrono", "chrono", "reverse", "precommits-first", "high-rounds-first", "alternate"}).Draw(t, "gossipOrder")
+	if f := os.Getenv("VERIF_GOSSIP"); f != "" {
+		net.GossipMode = f // debugging aid
+	}
+	lib.Class(test, "gossip-order:"+net.GossipMode)
+	// what the faulty validators keep doing during the suffix: random actions, nothing at all (then every correct
+	// node whose power is needed for a quorum must really take part), or nil votes in every round
+	byzMode := rapid.SampledFrom([]string{"random", "random", "silent", "silent", "nil-votes"}).Draw(t, "byzSuffixMode")
+	if f := os.Getenv("VERIF_BYZSUFFIX"); f != "" {
+		byzMode = f // debugging aid
+	}
+	if len(s.faulty) == 0 {
+		byzMode = "none"
+	}
+	lib.Class(test, "faulty-in-suffix:"+byzMode)
 	iterBudget := int(R+2)*5 + 40
 	decidedAt := int32(-1)
 	for iter := 0; ; iter++ {
@@ -309,12 +407,25 @@ func RunTermination(t *rapid.T, test string) {
 				hStar, iter, R, s.powers, s.faulty, net.Tail(120))
 		}
 		// faulty validators keep acting
-		if len(s.faulty) > 0 && rapid.IntRange(0, 2).Draw(t, "byzInSuffix") == 0 {
-			switch rapid.SampledFrom([]string{"bprop", "bvote", "bvote"}).Draw(t, "byzAct") {
-			case "bprop":
-				w.byzPropose()
-			case "bvote":
-				w.byzVotes()
+		if byzMode == "nil-votes" || (byzMode == "random" && rapid.IntRange(0, 2).Draw(t, "byzInSuffix") == 0) {
+			if byzMode == "nil-votes" {
+				top := int32(0)
+				for _, k := range net.Order {
+					if rs := net.Nodes[k].RS(); rs.Height == hStar && rs.Round > top {
+						top = rs.Round
+					}
+				}
+				for _, k := range s.faulty {
+					net.InjectVote(k, tmproto.PrevoteType, hStar, top, types.BlockID{}, nil)
+					net.InjectVote(k, tmproto.PrecommitType, hStar, top, types.BlockID{}, nil)
+				}
+			} else {
+				switch rapid.SampledFrom([]string{"bprop", "bvote", "bvote"}).Draw(t, "byzAct") {
+				case "bprop":
+					w.byzPropose()
+				case "bvote":
+					w.byzVotes()
+				}
 			}
 			// whatever a faulty validator sends to one correct node is gossiped on
 			for _, p := range net.Pool {
